@@ -123,6 +123,25 @@ def solve(ob, timeout_ms, both, extra_axioms=()):
         res["cvc5"] = r2["status"]
         if r2["status"] == "unsat":
             res.update(status="unsat", solver=r2["solver"], time=time.time() - t0)
+        else:
+            # nonlinear real arithmetic: retry a generalised (stronger) obligation, see pyvc.nra
+            from . import nra
+            try:
+                g = nra.generalise(list(ob.hyps) + list(extra_axioms), ob.goal)
+            except z3.Z3Exception:
+                g = None
+            if g is not None:
+                s2 = z3.Then("simplify", "propagate-values", "purify-arith", "qfnra-nlsat").solver()
+                s2.set("timeout", max(int(timeout_ms), 90000))
+                s2.add(*g[0])
+                s2.add(z3.Not(g[1]))
+                try:
+                    r3 = s2.check()
+                except z3.Z3Exception:
+                    r3 = z3.unknown
+                if r3 == z3.unsat:
+                    res.update(status="unsat", solver="z3-" + z3.get_version_string() + " (generalised: pyvc.nra)",
+                               time=time.time() - t0)
     elif both:
         r2 = smt._solve_cvc5(s.to_smt2(), timeout_ms)
         res["cvc5"] = r2["status"]
